@@ -2,13 +2,14 @@
   C08 — compiler correctness, stage 1, as a theorem.
 
   compileCF_correct_partial₁ : for EVERY program p of the stage-1 fragment (try/catch/finally, while/do/for,
-  break/continue [label], return, throw, labelled statements, if, block scope, with — `stage1 p`), whose code
+  for (let …;;), two-clause switch, break/continue [label], return, throw, uncatchable error, labelled statements,
+  if, block scope, with — `stage1 p`), whose code
   contains no unresolved branch placeholder (goja: "Could not find block"), the mini-VM run on the emitted
   code produces exactly the event log of the reference semantics and halts with the specified completion
   (function result: a normal completion is `return undefined`).
 
-  It is `_partial₁` because the fragment excludes for-in/of, let-headed loops, switch, uncatchable errors,
-  and finally blocks that start with a top-level break/continue (see `stage1`).
+  It is `_partial₁` because the fragment excludes for-in/of (lexical or not) and finally blocks that start with a
+  top-level break/continue (see `stage1`).
 
   compileS_eq_compileCF (CompileEq.lean + below): the compositional listing `compileS p` IS the code array the
   back-patching `compileCF` (mirror of compiler_stmt.go) ends with, for every stage-1 program: a theorem, no
@@ -236,8 +237,10 @@ theorem compileS_eq_compileCF_examples :
     let p1 : Stmt := .lbl 7 (.loop .while_ 1 2 (.tryS 1 (.seq (.log 1) (.brk (some 7))) true (.cont none) true (.log 2)))
     let p2 : Stmt := .loop .for_ 1 3 (.tryS 1 (.ifIter 1 (.thr 5)) true (.seq (.log 3) (.cont none)) true (.ifIter 2 (.log 4)))
     let p3 : Stmt := .tryS 1 (.blk (.withS (.ret 4))) false .skip true (.lbl 3 (.seq (.log 1) (.brk (some 3))))
+    let p4 : Stmt := .lbl 3 (.loop .forlet 1 3 (.sw true 0 (.blk (.brk none)) (.tryS 1 (.cont (some 3)) true (.ret 3) true .fatal)))
     (compileS p1).toArray = compileProgram p1 ∧ (compileS p2).toArray = compileProgram p2 ∧
-    (compileS p3).toArray = compileProgram p3 ∧ stage1 p1 = true ∧ stage1 p2 = true ∧ stage1 p3 = true := by
+    (compileS p3).toArray = compileProgram p3 ∧ (compileS p4).toArray = compileProgram p4 ∧
+    stage1 p1 = true ∧ stage1 p2 = true ∧ stage1 p3 = true ∧ stage1 p4 = true := by
   decide
 
 end GojaModel.C08
